@@ -175,32 +175,32 @@ def run(index, tier="quick", seed=0) -> Result:
     for cname, member, dim in (("Polygon", "circumcircle", 2), ("Polygon", "incircle", 2), ("Polyhedron", "circumsphere", 3), ("Polyhedron", "insphere", 3)):
         fn = index.effective_prop(index.cls(cname), member).getter
         k = f"{cname}.{member}"
-        found = False
-        for node in ast.walk(fn.node):
-            if isinstance(node, ast.If):
-                t = node.test
-                comps = [c for c in ast.walk(t) if isinstance(c, ast.Compare)]
-                lens = [c for c in comps if "len(" in ast.unparse(c.left) and isinstance(c.comparators[0], ast.Constant)]
-                raises = [x for x in ast.walk(node) if isinstance(x, ast.Raise)]
-                if lens and raises:
-                    found = True
-                    nex += 1
-                    c = lens[0]
-                    kconst = c.comparators[0].value
-                    op = type(c.ops[0]).__name__
-                    thr = kconst if op == "Gt" else (kconst - 1 if op == "GtE" else None)
-                    exc = raises[0].exc
-                    excname = exc.func.id if isinstance(exc, ast.Call) and isinstance(exc.func, ast.Name) else getattr(exc, "id", "?")
-                    if thr != dim + 1:
-                        res.bad("EX-1", k + ":guard", f"{fn.file}:{node.lineno}",
-                                f"{k}: the residual test is applied only for len(vertices) {'>' if op == 'Gt' else '>='} {kconst}; the system is "
-                                f"overdetermined from {dim + 2} vertices on, so a shape with {dim + 2} vertices gets a ball that violates the definition")
-                    elif excname != "RuntimeError":
-                        res.bad("EX-1", k + ":exc", f"{fn.file}:{node.lineno}", f"{k} raises {excname}, not RuntimeError, when no ball exists")
-                    else:
-                        res.ok("EX-1", k, sample={"existence_guard": k, "vertices_more_than": thr})
-        if not found:
-            res.bad("EX-1", k + ":missing", f"{fn.file}:{fn.lineno}", f"{k}: no residual-based existence test with a vertex-count guard")
+        # decided on the events of the abstract run: the comparison of len(<vertex data>) with a constant (wherever it is
+        # written: in the `if`, in a local first) and the exceptions the getter can raise
+        it_ = Interp(index)
+        r_ = it_.run_entry(fn, index.cls(cname))
+        lens = [e for e in r_["events"] if e.type == "cmp" and e.form == "compare" and e.func is fn and e.left is not None
+                and e.left.extra and isinstance(e.left.extra, tuple) and e.left.extra[0] == "len" and e.right is not None
+                and e.right.is_number_const() and e.op in ("Gt", "GtE")]
+        raised = sorted({x[0] for x in r_["raises"]})
+        if lens:
+            nex += 1
+            e = lens[0]
+            kconst = e.right.const
+            thr = kconst if e.op == "Gt" else kconst - 1
+            if thr != dim + 1:
+                res.bad("EX-1", k + ":guard", e.where(),
+                        f"{k}: the residual test is applied only for len(vertices) {'>' if e.op == 'Gt' else '>='} {kconst}; the system is "
+                        f"overdetermined from {dim + 2} vertices on, so a shape with {dim + 2} vertices gets a ball that violates the definition")
+            elif "RuntimeError" not in raised:
+                res.bad("EX-1", k + ":exc", e.where(), f"{k} raises {raised or 'nothing'}, not RuntimeError, when no ball exists")
+            else:
+                res.ok("EX-1", k, sample={"existence_guard": k, "vertices_more_than": thr})
+        elif "RuntimeError" not in raised:
+            res.bad("EX-1", k + ":missing", f"{fn.file}:{fn.lineno}", f"{k}: no residual-based existence test (the getter can never raise RuntimeError: "
+                    "a ball is returned whether or not one exists)")
+        else:
+            raise AnalysisError(f"EX-1: the vertex-count guard of {k} is not recognised")
         for s in sc.sites.values():
             if s.func == f"{cname}.{member}" and s.form in ("isclose", "allclose"):
                 if s.verdict == "in-band":
